@@ -374,6 +374,11 @@ CORPUS = [
          sG=1, spsi=1, nphi=31),
     # an axis with a curvature dip: the normal turns by more than one quadrant between two grid points
     dict(rc=[1.0, 0.2123], zs=[0.0, 0.1556], rs=[0.0, 0.027], zc=[0.0, 0.0354], nfp=2, etabar=0.9, order='r1', nphi=61),
+    # quasi-helical axis whose normal points OUTWARD at phi = 0 (R has its minimum there) and turns so that the step closing the period goes from quadrant 4 to quadrant 1
+    dict(rc=[1.0, -0.17, 0.01804], zs=[0.0, -0.1581, 0.0182], nfp=4, etabar=1.569, order='r1', nphi=31),
+    # symmetry broken by exactly ONE of the two non-symmetric axis blocks (zc alone; rs alone), sigma0 = 0, B2s = 0
+    dict(rc=[1.0, 0.09], zs=[0.0, -0.09], zc=[0.0, 0.02], nfp=2, etabar=0.95, order='r2', B2c=-0.7, p2=-600000.0, I2=0.3, nphi=31),
+    dict(rc=[1.0, 0.06], zs=[0.0, 0.05], rs=[0.0, 0.01], nfp=3, etabar=1.1, order='r1', nphi=31),
     # resolved (spectral tail 1e-12) third-order object with pressure, B0 != 1, sG = -1 and a non-symmetric axis: closed forms that agree when B0 = 1 differ here
     dict(rc=[1.0, 0.06], zs=[0.0, 0.05], rs=[0.0, 0.004], zc=[0.0, 0.003], nfp=2, etabar=0.9, order='r3', B2c=0.1, B2s=0.05, I2=0.2, B0=0.8, p2=-30000.0, sG=-1, nphi=61),
     # weakly shaped axis at second order: B20 is nearly uniform (one-pass variance formulas cancel catastrophically)
